@@ -34,6 +34,7 @@ class FnInfo:
         self.obligations = []
         self.calls = []             # (gen_line_of_call_token, byte, callee, ordinal)
         self.is_fn = True
+        self.traitpost = False
 
 
 class Generated:
@@ -240,6 +241,7 @@ def generate(unit, template_path, repo=None, canary=False):
         elif d.kind == 'heapmethods':
             heapmethods.update(d.arg.split())
     sources = {}
+    canary_flags = []
     segs = []   # (text, origin_kind, a, b)   origin: ('tmpl', first_lineno) | ('repo', path, first_line) | ('contract', fn, section)
 
     def count(rid, n):
@@ -306,6 +308,8 @@ def generate(unit, template_path, repo=None, canary=False):
                     retname = okv['ret'][-1]
                 if 'structural' in oflags:
                     structural = True
+                if 'traitpost' in oflags:
+                    fi.traitpost = True
                 if 'noghost' in oflags:
                     ghost = None
                 if 'heapmethods' in okv:
@@ -345,6 +349,12 @@ def generate(unit, template_path, repo=None, canary=False):
         if 'R13' in rewrites:
             body, n = rw.r13_const_str(body)
             count('R13', n)
+        if 'nodiscr' in flags or any('nodiscr' in _parse_kv(sd.arg)[1] for sd in blk['subs'] if sd.kind == 'opt'):
+            # R16: explicit enum discriminants (`Variant = 0`) and #[repr(..)] erased (Verus ICE on the anonymous consts)
+            body, n = rw.apply_pattern(body, '$V:id = $N:lit ,', '$V,')
+            body, n2 = rw.apply_pattern(body, '# [ repr ( $T:id ) ]', '')
+            count('R16', n + n2)
+            fi.rewrites['R16'] = n + n2
         for rid, pat, tpl, cnt, lineno in user_rw:
             body, n = rw.apply_pattern(body, pat, tpl)
             if cnt:
@@ -384,11 +394,14 @@ def generate(unit, template_path, repo=None, canary=False):
                 for sec, label, lprops, no in _section_clauses(spec_dir.body):
                     fi.labels.append((sec, None, label, lprops or props, no))
             if canary and lay['body_open'] is not None:
-                # canary twin: same requires, extra `ensures false` clause
+                # canary twin: same requires, extra clause `canary_F() ==> false` with a per-function uninterpreted flag
+                # (a plain `ensures false` would be visible to callers and poison *their* canaries)
+                flag = 'canary__' + re.sub(r'[^A-Za-z0-9_]', '_', fi.name)
+                canary_flags.append(flag)
                 if re.search(r'^\s*ensures\b', spec_text, re.M):
-                    spec_text = re.sub(r'^(\s*)ensures\b', r'\1ensures false, ', spec_text, count=1, flags=re.M)
+                    spec_text = re.sub(r'^(\s*)ensures\b', r'\1ensures ' + flag + '() ==> false, ', spec_text, count=1, flags=re.M)
                 else:
-                    spec_text = spec_text.rstrip() + ('\n' if spec_text.strip() else '') + '    ensures false,'
+                    spec_text = spec_text.rstrip() + ('\n' if spec_text.strip() else '') + '    ensures ' + flag + '() ==> false,'
             if spec_text.strip():
                 inserts.append((lay['body_open'], '\n' + spec_text.rstrip() + '\n', ('contract', fi.name, 'spec')))
             if loop_dirs:
@@ -505,6 +518,12 @@ def generate(unit, template_path, repo=None, canary=False):
                 col_open = True
         out.append(txt)
     g.text = ''.join(out)
+    if canary_flags:
+        decl = ' '.join(f'pub uninterp spec fn {f}() -> bool;' for f in canary_flags)
+        m = re.search(r'^verus!\s*\{[^\n]*$', g.text, re.M)
+        if not m:
+            raise AnchorError('template has no `verus! {` line')
+        g.text = g.text[:m.end()] + ' ' + decl + g.text[m.end():]
     g.lines = g.text.split('\n')
     while len(origins) < len(g.lines):
         origins.append(('tmpl', 0))
@@ -596,6 +615,8 @@ def _index_obligations(g):
                 fi.calls.append((ln, t.start, t.text, j))
                 fi.obligations.append(Obligation(f'{g.unit}::{fi.name}::pre@{t.text}#{j}', 'pre', fi.name, fi.props,
                                                  f'{g.repo_loc(ln)}'))
+        if fi.traitpost:
+            fi.obligations.append(Obligation(f'{g.unit}::{fi.name}::post:trait', 'post', fi.name, fi.props, 'postcondition declared on the trait method (prelude / vstd spec trait)'))
         fi.obligations.append(Obligation(f'{g.unit}::{fi.name}::safe', 'safe', fi.name, fi.props,
                                          'implicit obligations: arithmetic overflow, index bounds, unwrap, asserts, termination measures'))
 
